@@ -176,13 +176,21 @@ def obligations(tier):
                    instance=dict(n_const=None), clause="unconstrained ADMM returns the least-squares solution", forall=["sizes", "data"], enumerated=["n_const"]))
     # ---- bounded stand-in: converged outputs vs scipy.optimize.nnls
     def bounded():
+        n1, f1 = bounded_cases(0, (1, 3), True)
+        if tier != "thorough":
+            return n1, f1
+        # thorough: more right-hand sides; the warm-started active set is exercised on the seed-0 cases above only - on further random problems it is known
+        # to stop at non-optimal points (known finding, pinned by explicit witnesses below), and those cases would hide a new regression behind an old one
+        n2, f2 = bounded_cases(1, (2, 5), False)
+        return n1 + n2, f1 + f2
+    def bounded_cases(seed, rhs_list, warm_active_set):
         import warnings
         warnings.simplefilter("ignore")
         from scipy.optimize import nnls as sp_nnls
-        rng = np.random.RandomState(0)
+        rng = np.random.RandomState(seed)
         n_eval, fails = 0, []
         for n_unk in range(1, 9):
-            for n_rhs in (1, 2, 5) if tier == "thorough" else (1, 3):
+            for n_rhs in rhs_list:
                 for kind in ("signed", "nonneg"):
                     U = rng.standard_normal((n_unk + 4, n_unk))
                     if kind == "nonneg":
@@ -208,13 +216,36 @@ def obligations(tier):
                         wrong = (ref[:, j] <= 0).astype(float) + 0.5 * rng.rand(n_unk) * (rng.rand(n_unk) > 0.5)  # a guess supported where the solution is not
                         starts = [("cold", None), ("warm: perturbed solution", ref[:, j] + 0.1 * np.abs(rng.standard_normal(n_unk))), ("warm: all ones", np.ones(n_unk)),
                                   ("warm: wrong support", wrong), ("warm: large", 10 * np.abs(rng.standard_normal(n_unk)))]
-                        for sname, x0 in starts:
+                        for sname, x0 in (starts if warm_active_set else starts[:1]):
                             xa = nn.active_set_nnls(UtM[:, j].copy(), UtU.copy(), x=None if x0 is None else x0.copy(), n_iter_max=500)
                             f = 0.5 * np.linalg.norm(U @ xa - M[:, j]) ** 2
                             n_eval += 1
                             if xa.min() < -1e-12 or f > fr * (1 + 1e-6) + 1e-9:
                                 fails.append(f"active_set_nnls {kind} {n_unk} unknowns rhs {j} {sname}: objective {f:.6e} vs reference {fr:.6e}")
         return n_eval, fails
+    def bounded_witnesses():
+        """explicit well-conditioned 2-unknown problems on which the warm-started active set stops at a non-optimal point (reference: enumeration of the 4 supports)"""
+        W = [dict(UtU=[[3.9576871688374413, 1.9181917178011336], [1.9181917178011336, 2.2612114132159564]], UtM=[-0.2796602380231369, 1.5533093533050115], x0=[0.05075028826006253, 0.7644143906408309]),
+             dict(UtU=[[9.077816028543607, 5.241659741048247], [5.241659741048247, 4.267446683887158]], UtM=[2.866501583530948, 0.638773448582892], x0=[1.0, 1.0])]
+        n_eval, fails = 0, []
+        for k, w in enumerate(W):
+            UtU, UtM, x0 = (np.array(w[q]) for q in ("UtU", "UtM", "x0"))
+            xa = nn.active_set_nnls(UtM.copy(), UtU.copy(), x=x0.copy(), n_iter_max=500)
+            best = None
+            for S in ([], [0], [1], [0, 1]):
+                x = np.zeros(2)
+                if S:
+                    x[S] = np.linalg.solve(UtU[np.ix_(S, S)], UtM[S])
+                if (x >= -1e-12).all():
+                    f = 0.5 * x @ UtU @ x - UtM @ x
+                    best = f if best is None or f < best else best
+            fa = 0.5 * xa @ UtU @ xa - UtM @ xa
+            n_eval += 1
+            if xa.min() < -1e-12 or fa > best + 1e-9:
+                fails.append(f"active_set_nnls witness {k} (2 unknowns, warm start {w['x0']}): objective {fa:.6f} at the returned point {np.round(xa, 4).tolist()}, optimum {best:.6f}")
+        return n_eval, fails
+    obs.append(BoundedOb(f"{PID}/bounded/active_set_nnls from a warm start attains the optimum on the recorded witnesses", "tensorly.solvers.nnls:active_set_nnls", bounded_witnesses,
+                         dict(witnesses=2), "two explicit 2-unknown problems; reference by enumeration of the supports"))
     obs.append(BoundedOb(f"{PID}/bounded/converged outputs attain the reference NNLS optimum", "tensorly.solvers.nnls:hals_nnls+fista+active_set_nnls", bounded,
                          dict(unknowns="1-8", rhs="1,3 (1,2,5 thorough)"), "seed 0; signed and non-negative designs; cold start and 1 (HALS, FISTA) / 4 (active set) kinds of warm start; reference scipy.optimize.nnls"))
     return obs
